@@ -20,11 +20,12 @@ type Renderer struct {
 	E       *Env
 	Covered map[parse.Node]bool
 	Trace   []ActionTrace
+	Exported map[string]string // "tree: node" -> origin, for export calls on interface{}-typed data
 	KeepTrace bool
 }
 
 func (e *Env) NewRenderer() *Renderer {
-	return &Renderer{E: e, Covered: map[parse.Node]bool{}}
+	return &Renderer{E: e, Covered: map[parse.Node]bool{}, Exported: map[string]string{}}
 }
 
 // Render instantiates head+body for the given Output description.
@@ -133,6 +134,11 @@ func (r *Renderer) Render(output any, al Aliaser, stub bool, buildInfo string) (
 	run := func(set *TplSet) (string, error) {
 		in := &Interp{Trees: set.Trees, Funcs: funcs, Method: method, Covered: r.Covered}
 		if r.KeepTrace {
+			in.OnFunc = func(tree, name string, node parse.Node, args []*Value) {
+				if m, ok := e.Funcs[name]; ok && m.Kind == "export" && len(args) == 1 && args[0].K == KAny {
+					r.Exported[tree+": "+node.String()] = args[0].Origin
+				}
+			}
 			in.OnAction = func(tree string, n *parse.ActionNode, v *Value, printed string) {
 				exp := false
 				if c := n.Pipe.Cmds[len(n.Pipe.Cmds)-1]; len(c.Args) > 0 {
